@@ -470,26 +470,27 @@ def runtime_part(run, tier):
                               replay={"nesting": list(seq), "initial_modes": list(init), "exception_at": boom, "log": [list(map(str, l)) for l in log]})
     tm.gradient__, tm.retain_grads__ = True, False
     # retention after backward: leaves keep, root keeps, interiors release unless retain_grad / retain_grads
-    for use_ctx, use_mark in itertools.product([False, True], repeat=2):
+    for use_ctx, use_mark, zero_up in itertools.product([False, True], repeat=3):
         a = Tensor(np.array([1.0, 2.0]), requires_grad=True)
         b = Tensor(np.array([3.0, 4.0]), requires_grad=False)
         m = a * b
         k = m + a
         if use_mark:
             m.retain_grad()
-        r = k.sum()
+        # zero_up: the gradient arriving at the interior nodes is exactly zero (masked branch, dead relu): the rules do not depend on values
+        r = (k * Tensor(np.zeros(2))).sum() if zero_up else k.sum()
         if use_ctx:
             with tm.retain_grads():
                 r.backward()
         else:
             r.backward()
-        run.rt(("retention", use_ctx, use_mark))
+        run.rt(("retention", use_ctx, use_mark, zero_up))
         facts = {"leaf_keeps": a._grad is not None, "non_requiring_leaf_none": b._grad is None, "root_keeps": r._grad is not None,
                  "marked_interior": (m._grad is not None) == (use_mark or use_ctx), "unmarked_interior": (k._grad is not None) == use_ctx}
         for name, ok in facts.items():
             if not ok:
-                run.violation("synapgrad.tensor.Tensor.backward.retention." + name, "retention rule violated (retain_grads ctx=%s, retain_grad mark=%s)" % (use_ctx, use_mark),
-                              key={"clause": name, "under_retain_grads": use_ctx, "marked": use_mark}, replay={"facts": facts})
+                run.violation("synapgrad.tensor.Tensor.backward.retention." + name, "retention rule violated (retain_grads ctx=%s, retain_grad mark=%s, upstream gradient all zero=%s)" % (use_ctx, use_mark, zero_up),
+                              key={"clause": name, "under_retain_grads": use_ctx, "marked": use_mark, "zero_upstream": zero_up}, replay={"facts": facts})
     # backward inside no_grad still differentiates a graph recorded outside
     a = Tensor(np.array([1.0, 2.0]), requires_grad=True)
     r = (a * a).sum()
